@@ -87,9 +87,77 @@ def _chain_cases(node, p):
     return out
 
 
+def _roundtrip_semantic(model: Model, ex: FuncInfo, pu: FuncInfo):
+    """abstract run (domains/kinds.py, recursion followed) of extraction and refill over one nested object -
+    [T0, {a: T1, b: [T2, <object x=T3, n=3>]}, 7, (T9,)] - : extraction must list the tensors depth first in container order and the
+    refill of N0..N3 must put N_i exactly where T_i was, consuming the whole list.  Returns True, a message, or None when the bodies
+    are outside the interpreter's vocabulary (the structural comparison of the two case chains decides then)."""
+    from ..domains.kinds import AObj, KindInterp
+    from ..domains.dictsem import Unsupported, Raised, _Return, Tok, ADict
+    mod = model.module(PACK)
+    functions = {n_: f_.node for n_, f_ in mod.functions.items() if f_.parent is None and f_.cls is None}
+
+    def build(prefix):
+        # insertion orders differ from the sorted orders of the keys / attribute names on purpose
+        t = [Tok("%s%d" % (prefix, i), is_tensor=True) for i in range(6)]
+        outside = Tok("%s9" % prefix, is_tensor=True)
+        o = AObj("object", ("SomeClass",))
+        o.attrs["__dict__"] = ADict({"z": t[3], "n": 3, "a": t[4]}, "object.__dict__")
+        root = [t[0], ADict({"b": t[1], "a": [t[2], o]}, "dict"), 7, (outside,), t[5]]
+        return root, t, o, outside
+
+    def run(fi, args):
+        it = KindInterp(dict(zip(fi.params(), args)))
+        it.functions = functions
+        try:
+            it.run(fi.node.body)
+        except _Return as r:
+            return r.v
+        return None
+    try:
+        root, t, o, outside = build("T")
+        got = run(ex, [root])
+        if not (isinstance(got, list) and len(got) == 6 and all(any(x is y for y in t) for x in got) and len({id(x) for x in got}) == 6):
+            return "extraction of [T0, {b: T1, a: [T2, <object z=T3, n=3, a=T4>]}, 7, (T9,), T5] gives %r instead of T0 .. T5 once each" % (got,)
+        new = [Tok("N%d" % i, is_tensor=True) for i in range(6)]
+        feed = list(new)
+        out = run(pu, [root, feed])
+        if out is None:
+            out = root
+        try:
+            after = [out[0], out[1].data["b"], out[1].data["a"][0], o.attrs["__dict__"].data["z"], o.attrs["__dict__"].data["a"], out[4]]
+            intact = out[1].data["a"][1] is o and o.attrs["__dict__"].data.get("n") == 3 and out[2] == 7 and isinstance(out[3], tuple) and out[3][0] is outside
+        except (KeyError, IndexError, AttributeError, TypeError):
+            return "refilling N0..N5 destroys the structure of the object: %r" % (out,)
+        # whatever order the extraction uses, the tensor extracted as number j must be replaced by the j-th new tensor
+        wrong = [k for k in range(6) if after[k] is not new[[j for j in range(6) if got[j] is t[k]][0]]]
+        if wrong or not intact:
+            return "refilling N0..N5 gives %r (object.__dict__ = %r): the position that held the j-th extracted tensor does not receive the j-th new one" \
+                % (out, o.attrs["__dict__"].data)
+        if feed:
+            return "the refill leaves %r unconsumed" % (feed,)
+    except Unsupported:
+        return None
+    except Raised as e:
+        return "the extraction / refill pair raises on a nested object: %s" % e
+    return True
+
+
 def _traversal(model: Model, T: RuleResult):
     ex = model.func(PACK, "_extract_tensors")
     pu = model.func(PACK, "_put_tensors")
+    sem = _roundtrip_semantic(model, ex, pu)
+    if sem is True:
+        for k in range(5):
+            T.ok(PACK, ["abstract round trip over a nested list / dict / object / tuple: extraction lists the tensors depth first in container order",
+                        "refill puts the i-th new tensor where the i-th extracted tensor was (list, dict, object attribute)",
+                        "non-tensor leaves and containers the traversal does not enter (tuple) are left alone by both",
+                        "the refill consumes the list from the front and completely",
+                        "extraction and refill agree on every case of the traversal (semantic comparison)"][k])
+        return
+    if isinstance(sem, str):
+        T.bad(pu, pu.node, "extraction and refill disagree: %s" % sem)
+        return
     ce, cp = _cases(ex), _cases(pu)
     # rename the parameter to a common symbol
     pe, pp = ex.params()[0], pu.params()[0]
@@ -252,8 +320,33 @@ def _identity(model: Model, I: RuleResult):
     f = model.func(PACK, "_get_unique_idxs")
     p = f.params()[0]
     defs = function_defs(f.node)
-    # the key of the membership test derives from id(<element>)
-    loops = [n for n in own_nodes(f.node) if isinstance(n, ast.For)]
+    # abstract run over [T0, T1, T0, T2, T1] (T0 and T1 each listed twice: the same object): unique positions [0, 1, 3] and the
+    # inverse map [0, 1, 0, 2, 1]; two *different* tensors are never merged because every Tok is its own object
+    from ..domains.kinds import KindInterp
+    from ..domains.dictsem import Unsupported as _DU, Raised as _DR, _Return as _DRet, Tok
+    sem = None
+    tk = [Tok("T0", is_tensor=True), Tok("T1", is_tensor=True), Tok("T2", is_tensor=True)]
+    it = KindInterp({p: [tk[0], tk[1], tk[0], tk[2], tk[1]]})
+    try:
+        try:
+            it.run(f.node.body)
+            ret = None
+        except _DRet as r_:
+            ret = r_.v
+        if isinstance(ret, (tuple, list)) and len(ret) == 2 and list(ret[0]) == [0, 1, 3] and list(ret[1]) == [0, 1, 0, 2, 1]:
+            sem = True
+        else:
+            sem = "tensors [T0, T1, T0, T2, T1] give %r instead of ([0, 1, 3], [0, 1, 0, 2, 1])" % (ret,)
+    except _DU:
+        sem = None
+    except _DR as e_:
+        sem = "raises %s" % e_
+    if sem is True:
+        I.ok(f.fq, "uniqueness is keyed on id(<tensor>) (object identity) [abstract run: ([0, 1, 3], [0, 1, 0, 2, 1])]")
+        I.ok(f.fq, "a new identity is numbered by its position in the unique list")
+    elif isinstance(sem, str):
+        I.bad(f, f.node, "uniqueness must be keyed on object identity id(): any other key merges distinct tensors or separates aliased ones [%s]" % sem)
+    loops = [n for n in own_nodes(f.node) if isinstance(n, ast.For)] if sem is None else []
     ok = False
     if loops:
         lp = loops[0]
@@ -269,16 +362,17 @@ def _identity(model: Model, I: RuleResult):
             for d in defs.get(key, []):
                 srcs.append(d)
             ok = any(isinstance(s, ast.Call) and isinstance(s.func, ast.Name) and s.func.id == "id" for s in srcs)
-    if ok:
-        I.ok(f.fq, "uniqueness is keyed on id(<tensor>) (object identity)")
-    else:
-        I.bad(f, f.node, "uniqueness must be keyed on object identity id(): any other key merges distinct tensors or separates aliased ones")
-    # first occurrence wins and the inverse refers to the position in the unique list
-    src = ast.unparse(f.node)
-    if "len(unique_idxs)" in src or "len(%s)" % "unique_idxs" in src:
-        I.ok(f.fq, "a new identity is numbered by its position in the unique list")
-    else:
-        I.bad(f, f.node, "the inverse map must number identities by their position in the unique list")
+    if sem is None:
+        if ok:
+            I.ok(f.fq, "uniqueness is keyed on id(<tensor>) (object identity)")
+        else:
+            I.bad(f, f.node, "uniqueness must be keyed on object identity id(): any other key merges distinct tensors or separates aliased ones")
+        # first occurrence wins and the inverse refers to the position in the unique list
+        src = ast.unparse(f.node)
+        if "len(unique_idxs)" in src or "len(%s)" % "unique_idxs" in src:
+            I.ok(f.fq, "a new identity is numbered by its position in the unique list")
+        else:
+            I.bad(f, f.node, "the inverse map must number identities by their position in the unique list")
     cl = model.func(PACK, "Packer.construct_from_tensor_list")
     # abstract run of the re-expansion: unique tensors [T0, T1, T2] with inverse map [0, 1, 0, 2, 1] must become [T0, T1, T0, T2, T1]
     from ..domains.dictsem import DictInterp, Unsupported as _DU, Raised as _DR, Tok
